@@ -2,13 +2,24 @@
 (* Model-checking wrapper for Selector and export of the cases (database, matcher set, the series the       *)
 (* DEFINITION selects, the series the transcribed MECHANISM selects, the traits) that harness/cmd/c17        *)
 (* concretises and runs through the real selectors.                                                          *)
+(* Plans = set of <<s, m>>: all databases of <= s series x all matcher sets of <= m matchers are cases       *)
+(* (checked as states under CONSTRAINT PlanOK and exported); on top SampleDB x SampleMS random databases /   *)
+(* matcher sets of the bounds SampleSeries / SampleMatchers are exported (and checked inside Export).        *)
 EXTENDS Selector, Json, Randomization
 
-CONSTANTS SampleDB, SampleMS, OutFile     \* 0 = all
+CONSTANTS Plans, SampleDB, SampleMS, SampleSeries, SampleMatchers, OutFile
 
-XDBs == IF SampleDB = 0 THEN DBs ELSE RandomSubset(SampleDB, DBs)
-XMS  == IF SampleMS = 0 THEN MSets ELSE RandomSubset(SampleMS, MSets)
-Cases == {[db |-> d, ms |-> M, def |-> Selected(d, M), mech |-> MechSelected(d, M), traits |-> Traits(d, M)] :
-          d \in XDBs, M \in XMS}
-Export == JsonSerialize(OutFile, [names |-> [kv |-> KV, gl |-> GL], cases |-> Cases])
+InPlan(d, M) == \E p \in Plans : Cardinality(d) <= p[1] /\ Cardinality(M) <= p[2]
+PlanOK == IsCase => InPlan(db, ms)
+
+CaseOf(d, M) == [db |-> d, ms |-> M, def |-> Selected(d, M), mech |-> MechSelected(d, M), traits |-> Traits(d, M)]
+MSetsK(k) == UpTo(Matchers, k) \ (IF AllowEmpty THEN {} ELSE {{}})
+PlanCases == UNION {{CaseOf(d, M) : d \in UpTo(Series, p[1]), M \in MSetsK(p[2])} : p \in Plans}
+SampleCases == IF SampleDB = 0 \/ SampleMS = 0 THEN {}
+               ELSE {CaseOf(d, M) : d \in RandomSubset(SampleDB, UpTo(Series, SampleSeries)),
+                                    M \in RandomSubset(SampleMS, MSetsK(SampleMatchers))}
+Export == LET C == PlanCases \cup SampleCases IN
+          /\ JsonSerialize(OutFile, [names |-> [kv |-> KV, gl |-> GL], cases |-> C])
+          /\ \A c \in C : /\ c.traits = {} => c.def = c.mech          \* MechEqDefOnSafe on the sampled cases as well
+                          /\ c.def \subseteq c.db /\ c.mech \subseteq c.db
 =============================================================================
